@@ -94,6 +94,10 @@ func extractorOps(doc string) []operation {
 			t, _, err := open(dir).ToMarkdown()
 			return fmt.Sprintf("%q %v", t, err)
 		}},
+		{doc + ":Text.xhf", func(dir string) string {
+			t, _, err := open(dir).ExcludeHeadersAndFooters().Text()
+			return fmt.Sprintf("%q %v", t, err)
+		}},
 		{doc + ":Chunks.JSONL", func(dir string) string {
 			c, _, err := open(dir).Chunks()
 			if err != nil {
@@ -127,22 +131,26 @@ func readerTwiceOp(doc string) operation {
 			return "open error: " + err.Error()
 		}
 		defer r.Close()
-		n, _ := r.PageCount()
+		var rounds [2]string
 		for round := 0; round < 2; round++ {
-			for i := 0; i < n; i++ {
+			var rb strings.Builder
+			n, cerr := r.PageCount()
+			fmt.Fprintf(&rb, "pages=%d %v;", n, cerr)
+			for i := 0; i < n && i < 8; i++ {
 				pg, err := r.GetPage(i)
 				if err != nil {
-					fmt.Fprintf(&out, "[%d:%v]", i, err)
+					fmt.Fprintf(&rb, "[%d:%v]", i, err)
 					continue
 				}
 				t1, e1 := r.ExtractText(pg)
-				t2, e2 := r.ExtractText(pg)
-				if t1 != t2 || fmt.Sprint(e1) != fmt.Sprint(e2) {
-					fmt.Fprintf(&out, "%s page %d: first %q %v, second %q %v\n", repeatMarker, i+1, t1, e1, t2, e2)
-				}
-				fmt.Fprintf(&out, "[%d:%q %v]", i, t1, e1)
+				fmt.Fprintf(&rb, "[%d:%q %v]", i, t1, e1)
 			}
+			rounds[round] = rb.String()
 		}
+		if rounds[0] != rounds[1] {
+			fmt.Fprintf(&out, "%s on one opened reader: first pass %s, second pass %s\n", repeatMarker, rounds[0], rounds[1])
+		}
+		out.WriteString(rounds[0])
 		base := tabula.Open(path)
 		a, _, ea := base.ExcludeHeadersAndFooters().Text()
 		b, _, eb := base.ExcludeHeadersAndFooters().Text()
@@ -165,8 +173,33 @@ var _ = rag.ExportFormatJSON
 
 func operations() []operation {
 	var ops []operation
+	// operation alphabet: every document with the operations that can tell it apart from the others
+	keep := map[string][]string{
+		"a.pdf":       {"Text", "ToMarkdown", "Text.xhf", "Chunks.JSONL", "Chunks.CSV"},
+		"pending.pdf": {"Text"},
+		"broken.pdf":  {"Text"},
+		"badkid.pdf":  {"Text"},
+		"ties.pdf":    {"Text", "ToMarkdown", "Chunks.JSONL", "Chunks.CSV"},
+		"widths.pdf":  {"Text", "ToMarkdown"},
+		"forms.pdf":   {"Text", "ToMarkdown"},
+		"hf.pdf":      {"Text", "Text.xhf", "ToMarkdown"},
+		"a.docx":      {"Text", "ToMarkdown", "Chunks.JSONL", "Chunks.CSV"},
+		"a.xlsx":      {"Text", "ToMarkdown", "Chunks.CSV"},
+		"a.pptx":      {"Text", "ToMarkdown", "Chunks.CSV"},
+	}
 	for _, d := range docNames() {
-		ops = append(ops, extractorOps(d)...)
+		for _, o := range extractorOps(d) {
+			want, restricted := keep[d]
+			ok := !restricted && !strings.HasSuffix(o.name, ":Text.xhf") && !strings.HasSuffix(o.name, ":Chunks.CSV")
+			for _, w := range want {
+				if o.name == d+":"+w {
+					ok = true
+				}
+			}
+			if ok {
+				ops = append(ops, o)
+			}
+		}
 		if strings.HasSuffix(d, ".pdf") {
 			ops = append(ops, readerTwiceOp(d))
 		}
